@@ -24,7 +24,7 @@ ASSUMPTIONS = [
     'param.random_seed is left at its default; times are ints or Fractions (floats are cast with a warning)',
     'the global Dynamic.time_fn Time instance is used (each shard is its own process; state restored per case)',
 ]
-REQUIRED = {'reads': 3000, 'revisit_reads': 500, 'inspections': 300, 'contexts': 100, 'pushpops': 100, 'reads_raised': 20,
+REQUIRED = {'clock_tree_reads': 300, 'reads': 3000, 'revisit_reads': 500, 'inspections': 300, 'contexts': 100, 'pushpops': 100, 'reads_raised': 20,
             'sampled_reads': 100, 'sampled_cross_checks': 20,
             'class_level_generator_sets': 50, 'pushpops_through_holder': 50}
 
@@ -149,6 +149,48 @@ def gen_spec(rng, depth=0, frac=False):
     return ('scaled', rng.choice([1.0, 2.5, -1.0]))
 
 
+def clock_tree_case(idx, rng, P, rep, param, ng):
+    """A tree of objects driven by a clock of its own, handed to the whole tree with set_dynamic_time_fn(clock, sublistattr):
+    every object, whatever its depth, shows the value that belongs to the clock's time."""
+    clock = param.Time(time_type=int)
+    kind = rng.choice(['UniformRandom', 'NormalRandom', 'UniformRandomInt'])
+    seed = rng.randint(1, 99)
+
+    def gen():
+        return getattr(ng, kind)(name=f'tree{idx}', seed=seed, time_dependent=True, time_fn=clock)
+    Node = type(f'TN{idx}', (param.Parameterized,), dict(level=param.Number(default=0.0), children=param.List(default=[])))
+    nodes = []
+
+    def mk(d):
+        n = Node(level=gen())
+        nodes.append((d, n))
+        if d > 1:
+            n.children = [mk(d - 1) for _ in range(rng.choice([1, 1, 2]))]
+        return n
+    depth = rng.randint(1, 4)
+    root = mk(depth)
+    root.param.set_dynamic_time_fn(clock, sublistattr='children')
+    ref = gen()
+    table = {}
+    desc = dict(kind='clock-tree', generator=kind, depth=depth, nodes=len(nodes))
+    for _ in range(rng.randint(6, 14)):
+        t = rng.randint(0, 6)
+        clock(t)
+        if t not in table:
+            table[t] = ref()
+        for d, n in rng.sample(nodes, min(len(nodes), 4)):
+            v = n.level
+            rep.count('reads')
+            rep.count('clock_tree_reads')
+            if v != table[t] or n.param.inspect_value('level') != v:
+                rep.violation('C19/value-not-function-of-time/clock-handed-to-object-tree',
+                              f'object {depth - d} level(s) below the root reads {v!r} (inspect {n.param.inspect_value("level")!r}) at clock time {t}; '
+                              f'a generator with the same name and seed gives {table[t]!r}', case=desc)
+                rep.case(('clock-tree', kind, depth), True)
+                return
+    rep.case(('clock-tree', kind, depth, len(nodes)), depth > 1)
+
+
 def run_case(idx, rng, P, rep):
     param, ng = _st['param'], _st['ng']
     T = param.Dynamic.time_fn
@@ -157,7 +199,10 @@ def run_case(idx, rng, P, rep):
     T(fractions.Fraction(0), time_type=fractions.Fraction) if use_frac else T(0, time_type=int)
     param.Dynamic.time_dependent = True
     try:
-        _run(idx, rng, P, rep, param, ng, T, use_frac)
+        if rng.random() < 0.05:
+            clock_tree_case(idx, rng, P, rep, param, ng)
+        else:
+            _run(idx, rng, P, rep, param, ng, T, use_frac)
     finally:
         param.Dynamic.time_dependent = saved_td
         while getattr(T, '_pushed_state', None):
